@@ -136,6 +136,7 @@ func checkC01(ctx *Ctx, r *Report, tier string) {
 	ruleBB4(ctx, r, ctors)
 	ruleBB5(ctx, r)
 	ruleBB6(ctx, r)
+	ruleBB7(ctx, r)
 }
 
 func (c *bbCtor) boxAtoms() map[string]bool {
@@ -850,4 +851,104 @@ func ruleBB6(ctx *Ctx, r *Report) {
 		r.undecided("BB-6", "RevolveTheta3D", fn.Pos(), "quadrant table idiom not recognised")
 	}
 	r.floor("BB-6", 3)
+}
+
+// ruleBB7: the rotate-union constructors fold the operand box under step^0 .. step^(num-1):
+// the same transforms Evaluate applies. With num fixed to 2 (the box loop is then executed
+// iteration by iteration) every bound of the result must be the extremum over exactly the
+// operand box's own vertices (the copy under the identity) and their images under step.
+// A loop that multiplies before it folds covers step^1 .. step^num instead and loses the
+// original copy whenever num steps are not a full turn.
+func ruleBB7(ctx *Ctx, r *Report) {
+	for _, c := range []struct {
+		ctor string
+		dim  int
+	}{{"RotateUnion2D", 2}, {"RotateUnion3D", 3}} {
+		fn := ctx.ssaFunc("sdf", c.ctor)
+		key := c.ctor + "|box-is-the-hull-of-the-copies-0..num-1"
+		if fn == nil {
+			r.undecided("BB-7", key, 0, "not found")
+			continue
+		}
+		ev := newEval(ctx, "Inverse")
+		res, st := ev.evalRootWith(fn, map[string]int64{"num": 2})
+		obj, ok := resultObject(res, st)
+		if !ok || ev.Exceeded {
+			r.undecided("BB-7", key, fn.Pos(), "constructor result is not a closed form with num = 2")
+			continue
+		}
+		m := map[string]*Term{}
+		leafTerms("", obj, m)
+		axes := []string{"X", "Y", "Z"}[:c.dim]
+		bb := "call:" + fn.Params[0].Name() + ".BoundingBox()"
+		step := fn.Params[2].Name()
+		// vertices of the operand box
+		var verts [][]*Term
+		for mask := 0; mask < 1<<uint(c.dim); mask++ {
+			var v []*Term
+			for a, ax := range axes {
+				if mask>>uint(a)&1 == 1 {
+					v = append(v, A(bb+".Max."+ax))
+				} else {
+					v = append(v, A(bb+".Min."+ax))
+				}
+			}
+			verts = append(verts, v)
+		}
+		n := c.dim + 1 // matrix row length
+		image := func(v []*Term, row int) *Term {
+			t := A(fmt.Sprintf("%s[%d]", step, row*n+c.dim))
+			for k := 0; k < c.dim; k++ {
+				t = Add(t, Mul(A(fmt.Sprintf("%s[%d]", step, row*n+k)), v[k]))
+			}
+			return t
+		}
+		okAll := true
+		detail := ""
+		for a, ax := range axes {
+			for _, side := range []struct{ field, f string }{{".bb.Min." + ax, "math.Min"}, {".bb.Max." + ax, "math.Max"}} {
+				t := m[side.field]
+				if t == nil {
+					okAll = false
+					detail += " " + side.field + " not set;"
+					continue
+				}
+				var want []*Term
+				for _, v := range verts {
+					want = append(want, v[a], image(v, a))
+				}
+				got := leavesOf(t, side.f)
+				// set equality up to rational identity
+				for _, w := range want {
+					hit := false
+					for _, g := range got {
+						if equalRat(g, w) {
+							hit = true
+						}
+					}
+					if !hit {
+						okAll = false
+						detail += fmt.Sprintf(" %s misses %s;", side.field, shortKey(w.Key(), 70))
+					}
+				}
+				for _, g := range got {
+					hit := false
+					for _, w := range want {
+						if equalRat(g, w) {
+							hit = true
+						}
+					}
+					if !hit {
+						okAll = false
+						detail += fmt.Sprintf(" %s also folds %s;", side.field, shortKey(g.Key(), 70))
+					}
+				}
+			}
+		}
+		if len(detail) > 600 {
+			detail = detail[:600] + "…"
+		}
+		r.check("BB-7", key, fn.Pos(), okAll, "with num = 2: each bound is the extremum over the operand box's vertices and their images under step;"+detail)
+	}
+	r.floor("BB-7", 2)
 }
